@@ -40,9 +40,9 @@ Print Assumptions c20_path_index_bound.
 
 (* ... consequently no single key makes a list grow beyond maxIdx+1 entries: writing at an
    index that came out of path parsing grows the list to exactly max(len, idx+1) *)
-Theorem c20_growth_bound : forall input sep maxIdx numKeys escape i pp d a ov v d' a',
+Theorem c20_growth_bound : forall mx input sep maxIdx numKeys escape i pp d a ov v d' a',
   In (FIdx i) (parse_path input sep maxIdx numKeys escape) ->
-  set_field (FIdx i) pp (VSub d a) ov v = Ok (VSub d' a') ->
+  set_field mx (FIdx i) pp (VSub d a) ov v = Ok (VSub d' a') ->
   lenZ (arr_of a') <= Z.max (lenZ (arr_of a)) (maxIdx + 1).
 Proof. exact parsed_index_growth. Qed.
 Print Assumptions c20_growth_bound.
